@@ -88,6 +88,7 @@ fn main() {
                 stack: num("stack", 0) as usize,
                 seed: num("seed", 1),
                 rounds: num("rounds", 50) as usize,
+                idle_every: num("idle-every", 20) as usize,
             };
             match stress::run(&kv["in"], &kv["out"], opts) {
                 Ok(c) => c,
